@@ -1,0 +1,44 @@
+//go:build verif
+
+package mmc
+
+// Contracts for the deductive verifier in /verif (govc). The //@ lines are read by the verifier; functions
+// named verif* are proof harnesses, compiled only with -tags verif.
+
+// MIDI machine control: F0 7F <device> 06 <command> F7 ; locate: F0 7F <device> 06 44 06 01 hr mn sc fr ff F7
+
+//@ func (Message).SysEx
+//@ ensures [P:C18] fresh(result) && len(result) == 6 && result[0] == 0xF0 && result[1] == 0x7F && result[3] == 0x06 && result[4] == uint8(m.Command) && result[5] == 0xF7
+//@ ensures [P:C18] result[2] == ((m.DeviceID == 0 || m.DeviceID > 127) ? 127 : m.DeviceID)
+
+//@ func (*Message).Parse
+//@ modifies *g
+//@ ensures [P:C18] (len(bt) == 6 && bt[0] == 0xF0 && bt[1] == 0x7F && bt[3] == 0x06 && bt[4] < 0x40 && bt[5] == 0xF7) ==> (result == nil && g.DeviceID == bt[2] && g.Command == Command(bt[4]) && !g.IsResponse)
+
+//@ func (GoTo).SysEx
+//@ ensures [P:C18] fresh(result) && len(result) == 13 && result[0] == 0xF0 && result[1] == 0x7F && result[2] == g.DeviceID && result[3] == 0x06 && result[4] == 0x44 && result[5] == 0x06 && result[6] == 0x01
+//@ ensures [P:C18] result[7] == g.Hour && result[8] == g.Minute && result[9] == g.Second && result[10] == g.Frame && result[11] == g.SubFrame && result[12] == 0xF7
+
+//@ func (*GoTo).Parse
+//@ modifies *g
+//@ ensures [P:C18] (len(bt) == 13 && bt[0] == 0xF0 && bt[1] == 0x7F && bt[3] == 0x06 && bt[4] == 0x44 && bt[5] == 0x06 && bt[6] == 0x01 && bt[12] == 0xF7) ==> (result == nil && g.DeviceID == bt[2] && g.Hour == bt[7] && g.Minute == bt[8] && g.Second == bt[9] && g.Frame == bt[10] && g.SubFrame == bt[11])
+
+// verifRoundTripMMC: a plain command built for device 1..127 parses back to (device, command)
+func verifRoundTripMMC(dev byte, cmd Command) (err error, out Message) {
+	m := Message{DeviceID: dev, Command: cmd}
+	err = out.Parse(m.SysEx())
+	return
+}
+
+//@ func verifRoundTripMMC
+//@ requires dev >= 1 && dev <= 127 && cmd < 0x40
+//@ ensures [P:C18] err == nil && out.DeviceID == dev && out.Command == cmd
+
+// verifRoundTripGoTo: every locate message parses back to the value it was built from
+func verifRoundTripGoTo(g GoTo) (err error, out GoTo) {
+	err = out.Parse(g.SysEx())
+	return
+}
+
+//@ func verifRoundTripGoTo
+//@ ensures [P:C18] err == nil && out.DeviceID == g.DeviceID && out.Hour == g.Hour && out.Minute == g.Minute && out.Second == g.Second && out.Frame == g.Frame && out.SubFrame == g.SubFrame
